@@ -1,14 +1,28 @@
 #!/bin/bash
 # run.sh <ID> [quick|thorough]  -- rebuilds the checker against /repo's current working tree, then runs the check.
 # exit 0: property held on everything explored; 1: VIOLATION line(s) printed; 2: harness/build error.
+# Developer mode: VERIF_REPO=<dir> checks a scratch copy instead of /repo (evidence/replays then go to
+# $VERIF_OUT, default /tmp/verif-alt-out, never to /verif/evidence).
 set -u
 cd "$(dirname "$0")"
 export GOFLAGS=-mod=mod GOPROXY=off GOSUMDB=off GOTOOLCHAIN=local
 ID="$1"; TIER="${2:-${VERIF_TIER:-quick}}"
 mkdir -p bin evidence
-if ! go build -o bin/vcheck ./cmd/vcheck 2> bin/build.log; then
-  echo "BUILD-ERROR: the checker does not build against /repo's working tree" >&2
+BIN=bin/vcheck
+MODARGS=""
+if [ -n "${VERIF_REPO:-}" ]; then
+  ALT=$(echo -n "$VERIF_REPO" | md5sum | cut -c1-8)
+  sed "s#=> /repo#=> $VERIF_REPO#" go.mod > bin/alt-$ALT.mod
+  cp go.sum bin/alt-$ALT.sum
+  MODARGS="-modfile=bin/alt-$ALT.mod"
+  BIN=bin/vcheck-alt-$ALT
+  export VERIF_DIR="${VERIF_OUT:-/tmp/verif-alt-out}"
+  mkdir -p "$VERIF_DIR"
+  cp known_findings.json "$VERIF_DIR/" 2>/dev/null
+fi
+if ! go build $MODARGS -o $BIN ./cmd/vcheck 2> bin/build.log; then
+  echo "BUILD-ERROR: the checker does not build against the tree under test" >&2
   tail -30 bin/build.log >&2
   exit 2
 fi
-exec ./bin/vcheck "$ID" --tier "$TIER"
+exec ./$BIN "$ID" --tier "$TIER"
